@@ -9,12 +9,19 @@ From Coq Require Import ZifyBool.
 Ltac Zify.zify_post_hook ::= Z.div_mod_to_equations.
 
 (* a packet made by getRTCP from a feedback that was fed (s0, t0) first and then tr, all accepted *)
-Definition builder_pkt (p : pkt) : Prop :=
+(* (sequence number, arrival time) is a received entry of the arrival map *)
+Definition map_arrival (m : amap) (e : Z * Z) : Prop :=
+  exists seq, In (seq, snd e) (m_ent m) /\ fst e = u16 seq /\ 0 <= snd e.
+
+Definition builder_pkt_of (m : amap) (p : pkt) : Prop :=
   exists sender media fbc b0 s0 t0 tr f,
     0 <= b0 < 65536 /\ 0 <= t0 /\
     Forall (fun e : Z * Z => 0 <= fst e < 65536) ((s0, t0) :: tr) /\
+    Forall (map_arrival m) ((s0, t0) :: tr) /\
     fb_adds (fb_new b0 t0) ((s0, t0) :: tr) = Some f /\
     p = fb_get_rtcp sender media fbc f.
+
+Definition builder_pkt (p : pkt) : Prop := exists m, builder_pkt_of m p.
 
 Lemma ent_first_some (q : Z * Z -> bool) l e : ent_first q l = Some e -> q e = true /\ In e l.
 Proof.
@@ -26,40 +33,49 @@ Qed.
 
 Lemma mb_walk_trace : forall ents fb next fb' next',
   mb_walk ents fb next = (fb', next') ->
-  exists tr, fb_adds fb tr = Some fb' /\ Forall (fun e : Z * Z => 0 <= fst e < 65536) tr.
+  exists tr, fb_adds fb tr = Some fb' /\ Forall (fun e : Z * Z => 0 <= fst e < 65536) tr /\
+    Forall (fun e : Z * Z => exists seq, In (seq, snd e) ents /\ fst e = u16 seq /\ 0 <= snd e) tr.
 Proof.
   induction ents as [|[seq t] tl IH]; intros fb next fb' next' H; cbn [mb_walk] in H.
-  - inversion H; subst. exists []. split; [reflexivity|constructor].
-  - destruct (t >=? 0).
+  - inversion H; subst. exists []. split; [reflexivity|split; constructor].
+  - assert (Hw : forall tr, Forall (fun e : Z * Z => exists seq0, In (seq0, snd e) tl /\ fst e = u16 seq0 /\ 0 <= snd e) tr ->
+                            Forall (fun e : Z * Z => exists seq0, In (seq0, snd e) ((seq, t) :: tl) /\ fst e = u16 seq0 /\ 0 <= snd e) tr).
+    { intros tr0 H0. eapply Forall_impl; [|exact H0]. cbn. intros e (q & Hq & Hq'). exists q. split; [now right|exact Hq']. }
+    destruct (t >=? 0) eqn:Et.
     + destruct (fb_add_received fb (u16 seq) t) as [fb1|] eqn:E.
-      * destruct (IH _ _ _ _ H) as (tr & Htr & Hr). exists ((u16 seq, t) :: tr). split.
+      * destruct (IH _ _ _ _ H) as (tr & Htr & Hr & Hm). exists ((u16 seq, t) :: tr). split; [|split].
         -- cbn [fb_adds]. rewrite E. exact Htr.
         -- constructor; [cbn [fst]; apply u16_range|exact Hr].
-      * inversion H; subst. exists []. split; [reflexivity|constructor].
-    + apply (IH _ _ _ _ H).
+        -- constructor; [exists seq; cbn [fst snd]; split; [now left|split; [reflexivity|lia]]|apply Hw, Hm].
+      * inversion H; subst. exists []. split; [reflexivity|split; constructor].
+    + destruct (IH _ _ _ _ H) as (tr & Htr & Hr & Hm). exists tr. split; [exact Htr|]. split; [exact Hr|apply Hw, Hm].
 Qed.
 
 Lemma maybe_build_trace sender r b e fb nx c :
   rec_maybe_build sender r b e = (Some fb, nx, c) ->
   exists b0 s0 t0 tr, 0 <= b0 < 65536 /\ 0 <= t0 /\
     Forall (fun e : Z * Z => 0 <= fst e < 65536) ((s0, t0) :: tr) /\
+    Forall (map_arrival (r_map r)) ((s0, t0) :: tr) /\
     fb_adds (fb_new b0 t0) ((s0, t0) :: tr) = Some fb.
 Proof.
   unfold rec_maybe_build. cbv zeta.
   destruct (ent_first _ _) as [[seq t]|] eqn:Ef; [|discriminate].
-  apply ent_first_some in Ef as [Ht _]. cbn [snd] in Ht.
+  apply ent_first_some in Ef as [Ht Hin]. cbn [snd] in Ht. apply filter_In in Hin as [Hin _].
   destruct (fb_add_received _ (u16 seq) t) as [fb1|] eqn:E1; [|discriminate].
   destruct (mb_walk _ fb1 (seq + 1)) as [fb2 next] eqn:Ew. intros H. inversion H; subst.
-  destruct (mb_walk_trace _ _ _ _ _ Ew) as (tr & Htr & Hr).
+  destruct (mb_walk_trace _ _ _ _ _ Ew) as (tr & Htr & Hr & Hm).
   exists (u16 (Z.max b (seq - 32766))), (u16 seq), t, tr.
-  split; [apply u16_range|]. split; [lia|]. split.
+  split; [apply u16_range|]. split; [lia|]. split; [|split].
   - constructor; [cbn [fst]; apply u16_range|exact Hr].
+  - constructor; [exists seq; cbn [fst snd]; split; [exact Hin|split; [reflexivity|lia]]|].
+    eapply Forall_impl; [|exact Hm]. cbn. intros e0 (q & Hq & Hq'). exists q. split; [|exact Hq'].
+    unfold ent_from in Hq. apply filter_In in Hq as [Hq _]. apply filter_In in Hq as [Hq _]. exact Hq.
   - cbn [fb_adds]. rewrite E1. exact Htr.
 Qed.
 
 Lemma build_loop_pkts : forall fuel sender r endSN acc r' ps,
   rec_build_loop fuel sender r endSN acc = (r', ps) ->
-  Forall builder_pkt acc -> Forall builder_pkt ps.
+  Forall (builder_pkt_of (r_map r)) acc -> Forall (builder_pkt_of (r_map r)) ps.
 Proof.
   induction fuel as [|k IH]; intros sender r endSN acc r' ps H Hacc; cbn [rec_build_loop] in H.
   - inversion H; subst. exact Hacc.
@@ -67,12 +83,12 @@ Proof.
     destruct (s <? endSN); [|inversion H; subst; exact Hacc].
     destruct (rec_maybe_build sender r s endSN) as [[ofb start'] fbc'] eqn:Em.
     destruct ofb as [fb|]; [|inversion H; subst; exact Hacc].
-    apply (IH _ _ _ _ _ _ H). apply Forall_app. split; [exact Hacc|]. constructor; [|constructor].
-    destruct (maybe_build_trace _ _ _ _ _ _ _ Em) as (b0 & s0 & t0 & tr & H1 & H2 & H3 & H4).
-    exists sender, (r_media r), (r_fb r), b0, s0, t0, tr, fb. auto.
+    apply (IH _ _ _ _ _ _ H). cbn [r_map]. apply Forall_app. split; [exact Hacc|]. constructor; [|constructor].
+    destruct (maybe_build_trace _ _ _ _ _ _ _ Em) as (b0 & s0 & t0 & tr & H1 & H2 & H3 & H4 & H5).
+    exists sender, (r_media r), (r_fb r), b0, s0, t0, tr, fb. auto 10.
 Qed.
 
-Lemma build_pkts sender r r' ps : rec_build sender r = (r', ps) -> Forall builder_pkt ps.
+Lemma build_pkts sender r r' ps : rec_build sender r = (r', ps) -> Forall (builder_pkt_of (r_map r)) ps.
 Proof.
   unfold rec_build. destruct (r_start r); [|intros H; inversion H; constructor].
   destruct (rec_build_loop _ _ _ _ _) as [r1 ps1] eqn:E. intros H; inversion H; subst.
@@ -83,7 +99,8 @@ Theorem run_builder_pkts sender : forall ops r, Forall (Forall builder_pkt) (rec
 Proof.
   induction ops as [|o ops IH]; intros r; cbn [rec_run]; [constructor|].
   destruct o as [ssrc seq t|]; [apply IH|].
-  destruct (rec_build sender r) as [r' ps] eqn:E. constructor; [apply (build_pkts _ _ _ _ E)|apply IH].
+  destruct (rec_build sender r) as [r' ps] eqn:E. constructor; [|apply IH].
+  eapply Forall_impl; [|apply (build_pkts _ _ _ _ E)]. intros p Hp. exists (r_map r). exact Hp.
 Qed.
 
 (* the round trip for a builder packet whose first arrival fits the 24-bit reference time *)
@@ -100,7 +117,7 @@ Theorem roundtrip_twcc_builder_pkt p h :
            Z.abs (T - t * 1000) <= 125000 /\
            nth k acks zero_ack = match hget h 0 s with Some a => set_arr a T | None => zero_ack end) tr).
 Proof.
-  intros (sender & media & fbc & b0 & s0 & t0 & tr & f & Hb & Ht & Hr & Ha & ->).
+  intros (m & sender & media & fbc & b0 & s0 & t0 & tr & f & Hb & Ht & Hr & _ & Ha & ->).
   exists t0, ((s0, t0) :: tr). split; [discriminate|]. split; [reflexivity|]. intros Hlt.
   apply (roundtrip_twcc b0 t0 ((s0, t0) :: tr) f sender media fbc h Hb); [|exact Hr|exact Ha].
   rewrite Z.quot_div_nonneg by lia. lia.
@@ -123,4 +140,53 @@ Proof.
   intros Hps Hp. apply roundtrip_twcc_builder_pkt.
   pose proof (run_builder_pkts sender ops rec_init) as H.
   rewrite Forall_forall in H. specialize (H _ Hps). rewrite Forall_forall in H. apply H, Hp.
+Qed.
+
+(* the recorder states in which the builds of a history run *)
+Fixpoint rec_states (sender : Z) (r : recorder) (ops : list op) : list recorder :=
+  match ops with
+  | [] => []
+  | Rec ssrc seq t :: tl => rec_states sender (rec_record r ssrc seq t) tl
+  | Build :: tl => r :: rec_states sender (fst (rec_build sender r)) tl
+  end.
+
+Lemma run_builder_pkts_of sender : forall ops r,
+  Forall2 (fun st ps => Forall (builder_pkt_of (r_map st)) ps) (rec_states sender r ops) (rec_run sender r ops).
+Proof.
+  induction ops as [|o ops IH]; intros r; cbn [rec_run rec_states]; [constructor|].
+  destruct o as [ssrc seq t|]; [apply IH|].
+  destruct (rec_build sender r) as [r' ps] eqn:E. cbn [fst]. constructor; [apply (build_pkts _ _ _ _ E)|apply IH].
+Qed.
+
+Lemma Forall2_nth {A B} (R : A -> B -> Prop) l1 l2 da db i :
+  Forall2 R l1 l2 -> (i < length l2)%nat -> R (nth i l1 da) (nth i l2 db).
+Proof.
+  intros H. revert i. induction H as [|a b l1 l2 Hab H IH]; intros i Hi; [cbn in Hi; lia|].
+  destruct i as [|i]; [exact Hab|]. cbn [nth]. apply IH. cbn [length] in Hi. lia.
+Qed.
+
+(* every packet of the i-th build: the arrivals it round-trips are received entries of the
+   recorder's arrival map at that build *)
+Theorem roundtrip_twcc_recorder_map sender ops i p h :
+  (i < length (rec_run sender rec_init ops))%nat ->
+  In p (nth i (rec_run sender rec_init ops) []) ->
+  let m := r_map (nth i (rec_states sender rec_init ops) rec_init) in
+  exists t0 tr,
+    tr <> [] /\ snd (hd (0, 0) tr) = t0 /\ Forall (map_arrival m) tr /\
+    (t0 < 16777216 * 64000 ->
+     exists acks,
+       on_twcc h (p_base p) (p_ref p) (map chunk_of_wire (p_chunks p)) (map snd (p_deltas p)) = Some acks /\
+       Forall (fun e : Z * Z =>
+         let '(s, t) := e in
+         exists k T, (k < length acks)%nat /\ (p_base p + Z.of_nat k) mod 65536 = s /\
+           Z.abs (T - t * 1000) <= 125000 /\
+           nth k acks zero_ack = match hget h 0 s with Some a => set_arr a T | None => zero_ack end) tr).
+Proof.
+  intros Hi Hp m.
+  pose proof (Forall2_nth _ _ _ rec_init [] i (run_builder_pkts_of sender ops rec_init) Hi) as H.
+  cbv beta in H. rewrite Forall_forall in H. specialize (H _ Hp). fold m in H.
+  destruct H as (sd & media & fbc & b0 & s0 & t0 & tr & f & Hb & Ht & Hr & Hm & Ha & ->).
+  exists t0, ((s0, t0) :: tr). split; [discriminate|]. split; [reflexivity|]. split; [exact Hm|]. intros Hlt.
+  apply (roundtrip_twcc b0 t0 ((s0, t0) :: tr) f sd media fbc h Hb); [|exact Hr|exact Ha].
+  rewrite Z.quot_div_nonneg by lia. lia.
 Qed.
